@@ -26,23 +26,33 @@ Latent(st) ==
 NewDangling(r) == DanglingObs(r.st) \ (IF Starts(r) THEN {} ELSE seen)
 IsDynLeak(st, t) == /\ t[2] = "dynmember" /\ t[1] \in Ids(st) /\ st.e[t[1]].k = "dyn"
                     /\ Lv(st, t[3]) \in {"recycled", "tombstone"}
-\* the operation added >= 2 new targets to this attribute of this holder, at least one live one among them
+\* every reference value this operation ADDED to a live holder, over all attributes that a write sets
+\* (the derived memberof / directmemberof / dynmember / recycled_directmemberof are other plugins' output):
+\* refint checks exactly this union with one query
+Derived == {"memberof", "directmemberof", "dynmember", "recycled_directmemberof"}
+NewAll(r, pst) ==
+  UNION {UNION {Refs(r.st, x, a) \ (IF ~Starts(r) /\ x \in Ids(pst) THEN Refs(pst, x, a) ELSE {})
+                : a \in DOMAIN r.st.e[x].refs \ Derived} : x \in LiveIds(r.st)}
+\* the new dangling value was added by this operation together with at least one live target
 IsMixed(r, pst, t) ==
-  LET x == t[1]  a == t[2]
-      old == IF ~Starts(r) /\ x \in Ids(pst) THEN Refs(pst, x, a) ELSE {}
-      new == Refs(r.st, x, a) \ old
-  IN  /\ t[3] \in new /\ r.res = "ok" /\ Lv(r.st, t[3]) # "absent"
-      /\ \E w \in new : Lv(r.st, w) = "live"
+  LET new == NewAll(r, pst) IN
+  /\ t[2] \notin Derived /\ t[3] \in new /\ r.res = "ok" /\ Lv(r.st, t[3]) # "absent"
+  /\ \E w \in new : Lv(r.st, w) = "live"
+\* the holder already referenced this very target (reported earlier, still stored): refint only checks
+\* uuids that are new to the ENTRY, so the same target can be added to another attribute unchecked
+IsRepeat(t) == \E u \in seen : u[1] = t[1] /\ u[3] = t[3]
 Sig(r, pst) ==
-  LET N == NewDangling(r) IN
+  LET N  == NewDangling(r)
+      N1 == IF Starts(r) THEN N ELSE {t \in N : ~IsRepeat(t)} IN
   IF N = {} THEN "persist"
-  ELSE IF \A t \in N : IsDynLeak(r.st, t) THEN "dangling dynmember->nonlive"
-  ELSE IF \A t \in N : IsDynLeak(r.st, t) \/ IsMixed(r, pst, t) THEN "dangling mixed-new-targets"
-  ELSE LET t == CHOOSE u \in N : ~IsDynLeak(r.st, u) /\ ~IsMixed(r, pst, u)
+  ELSE IF N1 = {} THEN "persist-repeat"
+  ELSE IF \A t \in N1 : IsDynLeak(r.st, t) THEN "dangling dynmember->nonlive"
+  ELSE IF \A t \in N1 : IsDynLeak(r.st, t) \/ IsMixed(r, pst, t) THEN "dangling mixed-new-targets"
+  ELSE LET t == CHOOSE u \in N1 : ~IsDynLeak(r.st, u) /\ ~IsMixed(r, pst, u)
        IN  "dangling attr=" \o t[2] \o " target=" \o Lv(r.st, t[3])
 
 \* ------------------------------------------ L2 on a line ------------------------------------------
-A0 == {"member", "entry_managed_by", "refers", "oauth2_rs_scope_map", "dynmember"}
+A0 == {"member", "entry_managed_by", "refers", "oauth2_rs_scope_map", "key_provider", "dynmember"}
 Abs(st, I) ==
   [ids |-> I, attrs |-> A0,
    lv  |-> [x \in I |-> Lv(st, x)],
@@ -93,7 +103,10 @@ Predict(r, p, q, pst) ==
 LineL2(r, pst0) ==
   LET pst == IF Starts(r) THEN EmptySt ELSE pst0
       I == Ids(r.st) \cup Ids(pst) \cup DOMAIN r.st.lvx \cup DOMAIN pst.lvx
-      p == Abs(pst, I)  q == Abs(r.st, I)
+      q == Abs(r.st, I)
+      p0 == Abs(pst, I)
+      \* built-in entries that the previous projection did not mention: their liveness is what it is now
+      p == [p0 EXCEPT !.lv = [x \in I |-> IF p0.lv[x] = "unknown" THEN q.lv[x] ELSE p0.lv[x]]]
       m == Predict(r, p, q, pst)
       \* compare entries that are fully projected (or absent) on both sides
       J == {x \in I : (x \in Ids(r.st) \/ q.lv[x] = "absent") /\ (x \in Ids(pst) \/ p.lv[x] = "absent" \/ Starts(r))}
